@@ -20,8 +20,11 @@ variable {α : Type} [Zero α]
 /-- the entry of a per-compartment vector of `m` belonging to compartment `c` -/
 def valOf (m : Model α) (v : List α) (c : Comp) : α := v.getD ((compIdx m.comps c).getD 0) 0
 
-theorem relabel_eq_map [One α] [Add α] [Sub α] [Mul α] [Div α] [LT α] [DecidableLT α]
-    (m : Model α) (cs' : List Comp) (v : List α) : relabel m cs' v = cs'.map (valOf m v) := rfl
+theorem relabel_eq_map (m : Model α) (cs' : List Comp) (v : List α) :
+    relabel m cs' v = cs'.map (valOf m v) := rfl
+
+theorem relabel_length (m : Model α) (cs' : List Comp) (v : List α) :
+    (relabel m cs' v).length = cs'.length := by simp [relabel]
 
 end valOf
 
@@ -45,5 +48,1160 @@ theorem filter_idxWhere_contains (comps : List Comp) (P Q : Comp → Bool) :
   rw [this, hget, Bool.and_comm]
 
 end idx
+
+/-! ## 2. the force of infection -/
+section rows
+variable {α : Type}
+
+/-- which compartments are infectious for strain `σ` (the predicate of `strainInfectiousIdx`) -/
+def infP (m : Model α) (σ : String) (c : Comp) : Bool :=
+  (strainFilter m σ).all (fun kv => alookup c.strata kv.1 == some kv.2) && isInfectious m c
+
+/-- number of infectious compartments of strain `σ` in each mixing category -/
+def rowLens (m : Model α) (σ : String) : List Nat :=
+  m.mixingCats.map (fun cat => (m.comps.filter (fun c => catPred cat c && infP m σ c)).length)
+
+theorem rowLens_eq (m : Model α) (σ : String) :
+    ((Proofs.catIdxOf m).map
+      (fun row => row.filter (fun j => (strainInfectiousIdx m σ).contains j))).map (·.length) = rowLens m σ := by
+  unfold rowLens
+  rw [AggregateMore.catIdxOf_eq, List.map_map, List.map_map]
+  apply List.map_congr_left
+  intro cat _
+  simp only [Function.comp]
+  rw [show strainInfectiousIdx m σ = idxWhere m.comps (infP m σ) from rfl, filter_idxWhere_contains,
+    idxWhere_length]
+
+theorem rowLens_perm_comps (m : Model α) (cs' : List Comp) (hp : cs'.Perm m.comps) (σ : String) :
+    rowLens (withComps m cs') σ = rowLens m σ := by
+  unfold rowLens
+  apply List.map_congr_left
+  intro cat _
+  exact (hp.filter _).length_eq
+
+/-- number of entries of the flat per-strain list that `prepare` reshapes -/
+theorem length_locOf (m : Model α) (σ : String) :
+    (locOf (Proofs.catIdxOf m) (strainInfectiousIdx m σ)).length = (rowLens m σ).sum := by
+  unfold locOf
+  rw [List.length_map, List.filter_flatten, List.length_flatten, rowLens_eq]
+
+theorem src_mem_comps {m : Model α} {b : Backend} (hb : BackendFor m b) (f : Flow α) (hf : f ∈ m.flows)
+    (c : Comp) (hsrc : f.src = some c) : c ∈ m.comps := by
+  have h := hb.srcOk f hf (by rw [hsrc]; rfl)
+  simp only [srcIx, hsrc, Option.bind_some] at h
+  cases hi : compIdx m.comps c with
+  | none => rw [hi] at h; cases h
+  | some i =>
+    obtain ⟨hlt, hget⟩ := compIdx_getElem m.comps c i hi
+    exact hget ▸ List.getElem_mem hlt
+
+theorem dst_mem_comps {m : Model α} {b : Backend} (hb : BackendFor m b) (f : Flow α) (hf : f ∈ m.flows)
+    (c : Comp) (hdst : f.dst = some c) : c ∈ m.comps := by
+  have h := hb.dstOk f hf (by rw [hdst]; rfl)
+  simp only [dstIx, hdst, Option.bind_some] at h
+  cases hi : compIdx m.comps c with
+  | none => rw [hi] at h; cases h
+  | some i =>
+    obtain ⟨hlt, hget⟩ := compIdx_getElem m.comps c i hi
+    exact hget ▸ List.getElem_mem hlt
+
+theorem compIdx_of_mem (cs : List Comp) (c : Comp) (hc : c ∈ cs) :
+    ∃ j, compIdx cs c = some j ∧ ∃ h : j < cs.length, cs[j] = c := by
+  obtain ⟨j, hj, hl⟩ := Proofs.indexOf?_mem cs c hc
+  obtain ⟨hlt, hget⟩ := List.getElem?_eq_some_iff.1 hl
+  exact ⟨j, hj, hlt, hget⟩
+
+end rows
+
+section foi
+variable {α : Type} [Field α]
+
+/-- `catsUniform` read on the compartment list instead of the index tables -/
+theorem catsUniform_eq {m : Model α} {b : Backend} (ht : FoiTables m b) :
+    catsUniform b
+      = m.strains.all (fun σ => (rowLens m σ).all (fun n => n == ((rowLens m σ).head?).getD 0)) := by
+  unfold catsUniform
+  rw [ht.strainInfIdx, ht.catIdx, List.all_map]
+  congr 1
+  funext σ
+  simp only [Function.comp]
+  rw [← rowLens_eq m σ]
+  simp only [List.all_map, List.head?_map, Option.map_map]
+  rfl
+
+/-- uniformity of the categories does not depend on the order of the compartments -/
+theorem catsUniform_perm_comps {m : Model α} {cs' : List Comp} {b b' : Backend} (ht : FoiTables m b)
+    (ht' : FoiTables (withComps m cs') b') (hp : cs'.Perm m.comps) : catsUniform b' = catsUniform b := by
+  rw [catsUniform_eq ht, catsUniform_eq ht']
+  simp only [rowLens_perm_comps m cs' hp]
+  rfl
+
+theorem procType_perm_comps {m : Model α} {cs' : List Comp} {b b' : Backend} (ht : FoiTables m b)
+    (ht' : FoiTables (withComps m cs') b') : b'.procType = b.procType := by
+  rw [ht.procType, ht'.procType]; rfl
+
+/-- **per-strain forces of infection**: evaluated on the relabelled state with the relabelled
+compartment infectiousness, the reordered model gives the same vectors -/
+theorem perStrain_perm_comps {m : Model α} {cs' : List Comp} {b b' : Backend} (ht : FoiTables m b)
+    (ht' : FoiTables (withComps m cs') b') (hu : catsUniform b = true) (hnd : m.comps.Nodup)
+    (hp : cs'.Perm m.comps) (xc ci : List α) (hx : xc.length = m.comps.length)
+    (hc : ci.length = m.comps.length) (mix : Matrix α) :
+    (infectiousMultipliers b' (relabel m cs' xc) mix (relabel m cs' ci)).2
+      = (infectiousMultipliers b xc mix ci).2 := by
+  have hu' : catsUniform b' = true := by rw [catsUniform_perm_comps ht ht' hp]; exact hu
+  have e1 : m.comps.map (valOf m xc) = xc := relabel_self m hnd xc hx
+  have e2 : m.comps.map (valOf m ci) = ci := relabel_self m hnd ci hc
+  have h1 := perStrain_multi ht hu (valOf m xc) (valOf m ci) mix
+  have h2 := perStrain_multi ht' hu' (valOf m xc) (valOf m ci) mix
+  rw [e1, e2] at h1
+  rw [h1]
+  refine h2.trans ?_
+  rw [procType_perm_comps ht ht']
+  show m.strains.map _ = _
+  apply List.map_congr_left
+  intro σ _
+  congr 1
+  · apply List.map_congr_left
+    intro cat _
+    exact sumL_perm ((hp.filter _).map _)
+  · apply List.map_congr_left
+    intro cat _
+    exact sumL_perm ((hp.filter _).map _)
+
+/-- the category of an infection flow does not depend on the order of the compartments -/
+theorem catOf_perm_comps {m : Model α} {cs' : List Comp} {b : Backend} (hb : BackendFor m b)
+    (hp : cs'.Perm m.comps) (f : Flow α) (hf : f ∈ m.flows) : catOf (withComps m cs') f = catOf m f := by
+  cases hsrc : f.src with
+  | none => rw [catOf_none _ f hsrc, catOf_none _ f hsrc]
+  | some c =>
+    have hc := src_mem_comps hb f hf c hsrc
+    rw [catOf_eq m f c hsrc hc, catOf_eq (withComps m cs') f c hsrc (hp.mem_iff.2 hc)]
+    rfl
+
+theorem multFn_perm_comps {m : Model α} {cs' : List Comp} {b : Backend} (hb : BackendFor m b)
+    (hp : cs'.Perm m.comps) (ps : List (List α)) (f : Flow α) (hf : f ∈ m.flows) :
+    multFn (withComps m cs') ps f = multFn m ps f := by
+  unfold multFn
+  rw [catOf_perm_comps hb hp f hf]
+  rfl
+
+/-- **infection multipliers and per-strain vectors** of the reordered model at the relabelled state -/
+theorem infectiousMultipliers_perm_comps {m : Model α} {cs' : List Comp} {b b' : Backend}
+    (hb : BackendFor m b) (ht : FoiTables m b)
+    (ht' : FoiTables (withComps m cs') b') (hu : catsUniform b = true) (hnd : m.comps.Nodup)
+    (hp : cs'.Perm m.comps) (xc ci : List α) (hx : xc.length = m.comps.length)
+    (hc : ci.length = m.comps.length) (mix : Matrix α) :
+    infectiousMultipliers b' (relabel m cs' xc) mix (relabel m cs' ci) = infectiousMultipliers b xc mix ci := by
+  have h2 := perStrain_perm_comps ht ht' hu hnd hp xc ci hx hc mix
+  apply Prod.ext
+  · rw [Proofs.mults_eq_map ht', Proofs.mults_eq_map ht, h2]
+    show (m.flows.filter _).map _ = _
+    apply List.map_congr_left
+    intro f hf
+    exact multFn_perm_comps hb hp _ f (List.mem_filter.1 hf).1
+  · exact h2
+
+end foi
+
+/-! ## 3. the pure part of `step` -/
+section pure
+variable {α : Type} [Field α]
+
+theorem catsUniform_of_aligned {b : Backend} (hu : foiAligned b = true) (h : b.procType.isSome = true) :
+    catsUniform b = true := by
+  unfold foiAligned at hu
+  cases hp : b.procType with
+  | none => rw [hp] at h; cases h
+  | some o => rw [hp] at hu; simpa using hu
+
+/-- **compartment reordering, pure part of `step`**: given the weights and the mixing matrix, the
+reordered model evaluated at the relabelled state and infectiousness gives the same per-flow outputs and
+the relabelled per-compartment outputs -/
+theorem outOf_perm_comps {m : Model α} {cs' : List Comp} {b b' : Backend}
+    (hb : BackendFor m b) (hb' : BackendFor (withComps m cs') b') (ht : FoiTables m b)
+    (ht' : FoiTables (withComps m cs') b') (hs : sourcedOk m = true) (hu : foiAligned b = true)
+    (hnd : m.comps.Nodup) (hp : cs'.Perm m.comps) (w xc ci : List α) (hw : w.length = m.flows.length)
+    (hx : xc.length = m.comps.length) (hc : ci.length = m.comps.length) (mix : Matrix α) :
+    outOf b' w (relabel m cs' xc) mix (relabel m cs' ci) = relabelOut m cs' (outOf b w xc mix ci) := by
+  have hpt := procType_perm_comps ht ht'
+  have hmp : (if b'.procType.isSome then infectiousMultipliers b' (relabel m cs' xc) mix (relabel m cs' ci)
+        else (([] : List α), ([] : List (List α))))
+      = (if b.procType.isSome then infectiousMultipliers b xc mix ci else ([], [])) := by
+    rw [hpt]
+    by_cases h : b.procType.isSome = true
+    · rw [if_pos h, if_pos h]
+      exact infectiousMultipliers_perm_comps hb ht ht' (catsUniform_of_aligned hu h) hnd hp xc ci hx hc mix
+    · rw [if_neg h, if_neg h]
+  simp only [outOf, relabelOut, hmp, flowRates_perm_comps m cs' b b' hb hb' hs hnd hp w xc _ hw hx]
+  congr 1
+  exact compRates_perm_comps m cs' b b' hb hb' _ (hp.nodup_iff.2 hnd) (fun _ hc => hp.mem_iff.1 hc)
+
+end pure
+
+/-! ## 4. expressions -/
+section expr
+variable {α : Type} [Zero α] [Add α] [Sub α] [Mul α] [Div α] [LT α] [DecidableLT α]
+
+mutual
+/-- an expression that reads no compartment by position only sees the total of the state -/
+theorem eval_posFree (p : List (String × α)) (t : α) (x x' : List α) (hsum : sumL x' = sumL x) :
+    ∀ e : Expr α, posFree e = true → e.eval ⟨p, t, x'⟩ = e.eval ⟨p, t, x⟩
+  | .const _, _ => by simp [Expr.eval]
+  | .param _, _ => by simp [Expr.eval]
+  | .time, _ => by simp [Expr.eval]
+  | .comp _, h => by simp [posFree] at h
+  | .popSum, _ => by simp [Expr.eval, hsum]
+  | .add a b, h => by
+      simp only [posFree, Bool.and_eq_true] at h
+      simp only [Expr.eval, eval_posFree p t x x' hsum a h.1, eval_posFree p t x x' hsum b h.2]
+  | .sub a b, h => by
+      simp only [posFree, Bool.and_eq_true] at h
+      simp only [Expr.eval, eval_posFree p t x x' hsum a h.1, eval_posFree p t x x' hsum b h.2]
+  | .mul a b, h => by
+      simp only [posFree, Bool.and_eq_true] at h
+      simp only [Expr.eval, eval_posFree p t x x' hsum a h.1, eval_posFree p t x x' hsum b h.2]
+  | .div a b, h => by
+      simp only [posFree, Bool.and_eq_true] at h
+      simp only [Expr.eval, eval_posFree p t x x' hsum a h.1, eval_posFree p t x x' hsum b h.2]
+  | .pw a bs vs, h => by
+      simp only [posFree, Bool.and_eq_true] at h
+      simp only [Expr.eval, eval_posFree p t x x' hsum a h.1.1,
+        evalList_posFree p t x x' hsum bs h.1.2, evalList_posFree p t x x' hsum vs h.2]
+  | .lin a bs vs, h => by
+      simp only [posFree, Bool.and_eq_true] at h
+      simp only [Expr.eval, eval_posFree p t x x' hsum a h.1.1,
+        evalList_posFree p t x x' hsum bs h.1.2, evalList_posFree p t x x' hsum vs h.2]
+theorem evalList_posFree (p : List (String × α)) (t : α) (x x' : List α) (hsum : sumL x' = sumL x) :
+    ∀ l : List (Expr α), posFreeList l = true → Expr.evalList ⟨p, t, x'⟩ l = Expr.evalList ⟨p, t, x⟩ l
+  | [], _ => by simp [Expr.evalList]
+  | e :: es, h => by
+      simp only [posFreeList, Bool.and_eq_true] at h
+      simp only [Expr.evalList, eval_posFree p t x x' hsum e h.1, evalList_posFree p t x x' hsum es h.2]
+end
+
+mutual
+/-- an expression whose positional reads have been redirected by `ρ`, evaluated at a state `x'` that
+holds at position `ρ i` what `x` holds at position `i` -/
+theorem eval_reindex (p : List (String × α)) (t : α) (x x' : List α) (ρ : Nat → Nat) (hsum : sumL x' = sumL x)
+    (hρ : ∀ i, ρ i < x'.length ↔ i < x.length) (hget : ∀ i, i < x.length → x'.getD (ρ i) 0 = x.getD i 0) :
+    ∀ e : Expr α, (reindex ρ e).eval ⟨p, t, x'⟩ = e.eval ⟨p, t, x⟩
+  | .const _ => by simp [reindex, Expr.eval]
+  | .param _ => by simp [reindex, Expr.eval]
+  | .time => by simp [reindex, Expr.eval]
+  | .comp i => by
+      simp only [reindex, Expr.eval]
+      by_cases h : i < x.length
+      · rw [if_pos h, if_pos ((hρ i).2 h), hget i h]
+      · rw [if_neg h, if_neg (fun h' => h ((hρ i).1 h'))]
+  | .popSum => by simp [reindex, Expr.eval, hsum]
+  | .add a b => by
+      simp only [reindex, Expr.eval, eval_reindex p t x x' ρ hsum hρ hget a, eval_reindex p t x x' ρ hsum hρ hget b]
+  | .sub a b => by
+      simp only [reindex, Expr.eval, eval_reindex p t x x' ρ hsum hρ hget a, eval_reindex p t x x' ρ hsum hρ hget b]
+  | .mul a b => by
+      simp only [reindex, Expr.eval, eval_reindex p t x x' ρ hsum hρ hget a, eval_reindex p t x x' ρ hsum hρ hget b]
+  | .div a b => by
+      simp only [reindex, Expr.eval, eval_reindex p t x x' ρ hsum hρ hget a, eval_reindex p t x x' ρ hsum hρ hget b]
+  | .pw a bs vs => by
+      simp only [reindex, Expr.eval, eval_reindex p t x x' ρ hsum hρ hget a,
+        evalList_reindex p t x x' ρ hsum hρ hget bs, evalList_reindex p t x x' ρ hsum hρ hget vs]
+  | .lin a bs vs => by
+      simp only [reindex, Expr.eval, eval_reindex p t x x' ρ hsum hρ hget a,
+        evalList_reindex p t x x' ρ hsum hρ hget bs, evalList_reindex p t x x' ρ hsum hρ hget vs]
+theorem evalList_reindex (p : List (String × α)) (t : α) (x x' : List α) (ρ : Nat → Nat) (hsum : sumL x' = sumL x)
+    (hρ : ∀ i, ρ i < x'.length ↔ i < x.length) (hget : ∀ i, i < x.length → x'.getD (ρ i) 0 = x.getD i 0) :
+    ∀ l : List (Expr α), Expr.evalList ⟨p, t, x'⟩ (reindexList ρ l) = Expr.evalList ⟨p, t, x⟩ l
+  | [] => by simp [reindexList, Expr.evalList]
+  | e :: es => by
+      simp only [reindexList, Expr.evalList, eval_reindex p t x x' ρ hsum hρ hget e,
+        evalList_reindex p t x x' ρ hsum hρ hget es]
+end
+
+mutual
+theorem reindex_of_posFree (ρ : Nat → Nat) : ∀ e : Expr α, posFree e = true → reindex ρ e = e
+  | .const _, _ => rfl
+  | .param _, _ => rfl
+  | .time, _ => rfl
+  | .comp _, h => by simp [posFree] at h
+  | .popSum, _ => rfl
+  | .add a b, h => by
+      simp only [posFree, Bool.and_eq_true] at h
+      simp only [reindex, reindex_of_posFree ρ a h.1, reindex_of_posFree ρ b h.2]
+  | .sub a b, h => by
+      simp only [posFree, Bool.and_eq_true] at h
+      simp only [reindex, reindex_of_posFree ρ a h.1, reindex_of_posFree ρ b h.2]
+  | .mul a b, h => by
+      simp only [posFree, Bool.and_eq_true] at h
+      simp only [reindex, reindex_of_posFree ρ a h.1, reindex_of_posFree ρ b h.2]
+  | .div a b, h => by
+      simp only [posFree, Bool.and_eq_true] at h
+      simp only [reindex, reindex_of_posFree ρ a h.1, reindex_of_posFree ρ b h.2]
+  | .pw a bs vs, h => by
+      simp only [posFree, Bool.and_eq_true] at h
+      simp only [reindex, reindex_of_posFree ρ a h.1.1, reindexList_of_posFree ρ bs h.1.2,
+        reindexList_of_posFree ρ vs h.2]
+  | .lin a bs vs, h => by
+      simp only [posFree, Bool.and_eq_true] at h
+      simp only [reindex, reindex_of_posFree ρ a h.1.1, reindexList_of_posFree ρ bs h.1.2,
+        reindexList_of_posFree ρ vs h.2]
+theorem reindexList_of_posFree (ρ : Nat → Nat) : ∀ l : List (Expr α), posFreeList l = true → reindexList ρ l = l
+  | [], _ => rfl
+  | e :: es, h => by
+      simp only [posFreeList, Bool.and_eq_true] at h
+      simp only [reindexList, reindex_of_posFree ρ e h.1, reindexList_of_posFree ρ es h.2]
+end
+
+/-- redirecting the positional reads commutes with the adjustment chain -/
+theorem realised_reindexFlow (ρ : Nat → Nat) (f : Flow α) :
+    realised (reindexFlow ρ f) = reindex ρ (realised f) := by
+  unfold realised reindexFlow
+  simp only [List.foldl_map]
+  generalize f.param = e
+  induction f.adjs generalizing e with
+  | nil => rfl
+  | cons a as ih =>
+    simp only [List.foldl_cons]
+    cases a with
+    | mul e' =>
+      have := ih (e.mul e')
+      simp only [reindex] at this
+      exact this
+    | ovr e' => exact ih e'
+
+end expr
+
+/-! ## 5. compartment infectiousness -/
+section compInf
+variable {α : Type} [Zero α] [One α] [Add α] [Sub α] [Mul α] [Div α] [LT α] [DecidableLT α]
+
+/-- `compInfectiousness` entry by entry (this is `Summer.Props.C05.infectiousness`) -/
+theorem compInf_spec (m : Model α) (params : List (String × α)) (hnd : m.comps.Nodup) :
+    (∀ r, compInfectiousness m params = some r → r.length = m.comps.length) ∧
+    ∀ (i : Nat) (hi : i < m.comps.length),
+      (compInfectiousness m params).map (fun r => r.getD i 0) = infSpec m params m.comps[i] := by
+  rw [FOI.compInfectiousness_eq]
+  refine ⟨fun r h => ?_, fun i hi => ?_⟩
+  · rw [FOI.mfold_len m params _ _ r h]; simp
+  · have := (FOI.mfold_corr m hnd params i hi (infAdjList m) (List.replicate m.comps.length 1) (by simp)).1
+    rw [this]
+    have h1 : (List.replicate m.comps.length (1 : α)).getD i 0 = 1 := by
+      simp [List.getD_eq_getElem?_getD, hi]
+    rw [h1]
+    rfl
+
+/-- **compartment infectiousness** of the reordered model: defined exactly when that of `m` is, and
+then the relabelled vector -/
+theorem compInfectiousness_perm_comps (m : Model α) (cs' : List Comp) (hnd : m.comps.Nodup)
+    (hp : cs'.Perm m.comps) (p : List (String × α)) :
+    compInfectiousness (withComps m cs') p = (compInfectiousness m p).map (relabel m cs') := by
+  have hnd' : (withComps m cs').comps.Nodup := hp.nodup_iff.2 hnd
+  obtain ⟨hlen, hspec⟩ := compInf_spec m p hnd
+  obtain ⟨hlen', hspec'⟩ := compInf_spec (withComps m cs') p hnd'
+  have hspec'' : ∀ (j : Nat) (hj : j < cs'.length),
+      (compInfectiousness (withComps m cs') p).map (fun r => r.getD j 0) = infSpec m p cs'[j] :=
+    fun j hj => hspec' j hj
+  -- every compartment of `cs'` sits somewhere in `m.comps`
+  have hpos : ∀ (j : Nat) (hj : j < cs'.length), ∃ (i : Nat) (hi : i < m.comps.length),
+      m.comps[i] = cs'[j] ∧ compIdx m.comps cs'[j] = some i := by
+    intro j hj
+    obtain ⟨i, hi, hget⟩ := List.getElem_of_mem (hp.mem_iff.1 (List.getElem_mem hj))
+    exact ⟨i, hi, hget, hget ▸ compIdx_of_nodup m.comps hnd i hi⟩
+  by_cases hempty : m.comps = []
+  · have hcs : cs' = [] := by rw [hempty] at hp; exact hp.eq_nil
+    have hm : withComps m cs' = m := by
+      cases m; simp only [withComps] at *; simp [hcs, hempty]
+    rw [hm]
+    cases hci : compInfectiousness m p with
+    | none => rfl
+    | some r =>
+      have := hlen r hci
+      rw [hempty] at this
+      rw [List.length_eq_zero_iff.1 this, hcs]
+      rfl
+  · have hpos0 : 0 < m.comps.length := List.length_pos_iff.2 hempty
+    have hpos0' : 0 < cs'.length := by rw [hp.length_eq]; exact hpos0
+    cases hci : compInfectiousness m p with
+    | none =>
+      -- the compartment at position 0 of `m.comps` sits somewhere in `cs'`
+      obtain ⟨j, hj, hget⟩ := List.getElem_of_mem (hp.mem_iff.2 (List.getElem_mem hpos0))
+      have h1 := hspec 0 hpos0
+      have h2 := hspec'' j hj
+      rw [hci] at h1
+      rw [hget, ← h1] at h2
+      simpa using h2
+    | some r =>
+      cases hci' : compInfectiousness (withComps m cs') p with
+      | none =>
+        obtain ⟨i, hi, hget, _⟩ := hpos 0 hpos0'
+        have h1 := hspec i hi
+        have h2 := hspec'' 0 hpos0'
+        rw [hci] at h1
+        rw [hci', ← hget, ← h1] at h2
+        simp at h2
+      | some r' =>
+        simp only [Option.map_some, Option.some.injEq]
+        apply List.ext_getElem
+        · rw [hlen' r' hci', relabel_length]; rfl
+        · intro j h1 h2
+          have hj : j < cs'.length := by rw [relabel_length] at h2; exact h2
+          obtain ⟨i, hi, hget, hidx⟩ := hpos j hj
+          have e1 := hspec i hi
+          have e2 := hspec'' j hj
+          rw [hci] at e1
+          rw [hci', ← hget, ← e1] at e2
+          simp only [Option.map_some, Option.some.injEq] at e2
+          rw [← getD_eq_getElem r' j 0 h1, e2]
+          simp only [relabel, List.getElem_map, hidx, Option.getD_some]
+
+end compInf
+
+/-! ## 6. one evaluation of the right-hand side -/
+section stepsec
+variable {α : Type} [Field α] [LinearOrder α] [IsStrictOrderedRing α]
+
+theorem getD_cleanV (x : List α) (i : Nat) : (cleanV x).getD i 0 = clean (x.getD i 0) := by
+  unfold cleanV
+  by_cases hi : i < x.length
+  · rw [getD_eq_getElem _ _ _ (by simpa using hi), getD_eq_getElem _ _ _ hi, List.getElem_map]
+  · rw [getD_of_le _ _ _ (by simpa using hi), getD_of_le _ _ _ (by omega)]
+    simp [clean]
+
+/-- cleaning commutes with the relabelling -/
+theorem cleanV_relabel (m : Model α) (cs' : List Comp) (x : List α) :
+    cleanV (relabel m cs' x) = relabel m cs' (cleanV x) := by
+  unfold relabel
+  simp only [cleanV, List.map_map]
+  apply List.map_congr_left
+  intro c _
+  exact (getD_cleanV x _).symm
+
+/-- **core**: `m'` is any model that, at the relabelled state, produces the weights and the mixing matrix
+of `m`, and whose compartment infectiousness is that of `withComps m cs'`; `b'` are the index tables of
+`withComps m cs'`.  Then one evaluation of `m'` on the relabelled state is defined exactly when that of
+`m` on the original state is, and it is the relabelled output. -/
+theorem step_perm_comps_core (m m' : Model α) (cs' : List Comp) (b b' : Backend) (h : prepare m = .ok b)
+    (h' : prepare (withComps m cs') = .ok b') (hs : sourcedOk m = true) (hu : foiAligned b = true)
+    (hnd : m.comps.Nodup) (hp : cs'.Perm m.comps) (p : List (String × α)) (t : α) (x : List α)
+    (hx : x.length = m.comps.length)
+    (hW : weightsAt m' ⟨p, t, relabel m cs' (cleanV x)⟩ = weightsAt m ⟨p, t, cleanV x⟩)
+    (hM : mixingMatrix m' ⟨p, t, relabel m cs' (cleanV x)⟩ = mixingMatrix m ⟨p, t, cleanV x⟩)
+    (hC : compInfectiousness m' p = compInfectiousness (withComps m cs') p) :
+    step m' b' p t (relabel m cs' x) = (step m b p t x).map (relabelOut m cs') := by
+  have hb := backendFor_of_prepare m b h
+  have hb' := backendFor_of_prepare _ b' h'
+  have ht := foiTables_of_prepare m b h
+  have ht' := foiTables_of_prepare _ b' h'
+  rw [step_eq, step_eq, cleanV_relabel, hW, hM, hC, compInfectiousness_perm_comps m cs' hnd hp]
+  cases hw : weightsAt m ⟨p, t, cleanV x⟩ with
+  | none => rfl
+  | some w =>
+    cases mixingMatrix m ⟨p, t, cleanV x⟩ with
+    | none => rfl
+    | some mix =>
+      cases hci : compInfectiousness m p with
+      | none => rfl
+      | some ci =>
+        simp only [Option.bind_some, Option.map_some]
+        congr 1
+        exact outOf_perm_comps hb hb' ht ht' hs hu hnd hp w (cleanV x) ci (weightsAt_length m _ w hw)
+          (by simpa [cleanV] using hx) ((compInf_spec m p hnd).1 ci hci) mix
+
+theorem rhs_of_step {m m' : Model α} {cs' : List Comp} {b b' : Backend} {p : List (String × α)} {t : α}
+    {x : List α} (hstep : step m' b' p t (relabel m cs' x) = (step m b p t x).map (relabelOut m cs')) :
+    rhs m' b' p (relabel m cs' x) t = (rhs m b p x t).map (relabel m cs') := by
+  unfold rhs
+  rw [hstep, Option.map_map, Option.map_map]
+  rfl
+
+/-! ### models that do not read compartments by position -/
+
+theorem sumL_relabel (m : Model α) (cs' : List Comp) (hnd : m.comps.Nodup) (hp : cs'.Perm m.comps)
+    (v : List α) (hv : v.length = m.comps.length) : sumL (relabel m cs' v) = sumL v :=
+  sumL_perm (relabel_perm m cs' hnd hp v hv)
+
+theorem weightsAt_posFree (m : Model α) (cs' : List Comp) (hpf : posFreeModel m = true)
+    (p : List (String × α)) (t : α) (x x' : List α) (hsum : sumL x' = sumL x) :
+    weightsAt (withComps m cs') ⟨p, t, x'⟩ = weightsAt m ⟨p, t, x⟩ := by
+  unfold posFreeModel at hpf
+  rw [Bool.and_eq_true, List.all_eq_true] at hpf
+  unfold weightsAt
+  show m.flows.mapM _ = _
+  apply mapM_option_congr
+  intro f hf
+  exact eval_posFree p t x x' hsum _ (hpf.1 f hf)
+
+theorem mixingMatrix_posFree (m : Model α) (cs' : List Comp) (hpf : posFreeModel m = true)
+    (p : List (String × α)) (t : α) (x x' : List α) (hsum : sumL x' = sumL x) :
+    mixingMatrix (withComps m cs') ⟨p, t, x'⟩ = mixingMatrix m ⟨p, t, x⟩ := by
+  unfold posFreeModel at hpf
+  rw [Bool.and_eq_true, List.all_eq_true] at hpf
+  unfold mixingMatrix
+  have : (withComps m cs').mixingMats.mapM (evalMatrix ⟨p, t, x'⟩) = m.mixingMats.mapM (evalMatrix ⟨p, t, x⟩) := by
+    show m.mixingMats.mapM _ = _
+    apply mapM_option_congr
+    intro mat hmat
+    have h1 := List.all_eq_true.1 (List.all_eq_true.1 hpf.2 mat hmat)
+    unfold evalMatrix
+    apply mapM_option_congr
+    intro row hrow
+    have h2 := List.all_eq_true.1 (h1 row hrow)
+    apply mapM_option_congr
+    intro e he
+    exact eval_posFree p t x x' hsum e (h2 e he)
+  rw [this]
+
+/-- **reordering the compartments** of a model that reads no compartment by position -/
+theorem step_perm_comps (m : Model α) (cs' : List Comp) (b b' : Backend) (h : prepare m = .ok b)
+    (h' : prepare (withComps m cs') = .ok b') (hs : sourcedOk m = true) (hu : foiAligned b = true)
+    (hpf : posFreeModel m = true)
+    (hnd : m.comps.Nodup) (hp : cs'.Perm m.comps) (p : List (String × α)) (t : α) (x : List α)
+    (hx : x.length = m.comps.length) :
+    step (withComps m cs') b' p t (relabel m cs' x) = (step m b p t x).map (relabelOut m cs') := by
+  have hsum := sumL_relabel m cs' hnd hp (cleanV x) (by simpa [cleanV] using hx)
+  exact step_perm_comps_core m _ cs' b b' h h' hs hu hnd hp p t x hx
+    (weightsAt_posFree m cs' hpf p t _ _ hsum) (mixingMatrix_posFree m cs' hpf p t _ _ hsum) rfl
+
+/-! ### the general case: positional reads follow their compartment -/
+
+theorem newPos_lt (m : Model α) (cs' : List Comp) (hp : cs'.Perm m.comps) (i : Nat) :
+    newPos m cs' i < cs'.length ↔ i < m.comps.length := by
+  unfold newPos
+  by_cases hi : i < m.comps.length
+  · rw [List.getElem?_eq_getElem hi]
+    obtain ⟨j, hj, hlt, _⟩ := compIdx_of_mem cs' m.comps[i] (hp.mem_iff.2 (List.getElem_mem hi))
+    simp only [hj, Option.getD_some]
+    exact ⟨fun _ => hi, fun _ => hlt⟩
+  · rw [List.getElem?_eq_none (by omega)]
+    simp only
+    rw [hp.length_eq]
+
+theorem relabel_getD_newPos (m : Model α) (cs' : List Comp) (hnd : m.comps.Nodup) (hp : cs'.Perm m.comps)
+    (v : List α) (i : Nat) (hi : i < m.comps.length) :
+    (relabel m cs' v).getD (newPos m cs' i) 0 = v.getD i 0 := by
+  unfold newPos
+  rw [List.getElem?_eq_getElem hi]
+  obtain ⟨j, hj, hlt, _⟩ := compIdx_of_mem cs' m.comps[i] (hp.mem_iff.2 (List.getElem_mem hi))
+  simp only [hj, Option.getD_some]
+  rw [relabel_getD_compIdx m cs' v m.comps[i] j hj, compIdx_of_nodup m.comps hnd i hi]
+  rfl
+
+theorem prepare_permModel (m : Model α) (cs' : List Comp) :
+    prepare (permModel m cs') = prepare (withComps m cs') := by
+  let mm : Matrix (Expr α) → Matrix (Expr α) := fun mat => mat.map (fun row => row.map (reindex (newPos m cs')))
+  have := prepare_map_flows ({ withComps m cs' with mixingMats := m.mixingMats.map mm })
+    (reindexFlow (newPos m cs')) (fun _ => rfl) (fun _ => rfl) (fun _ => rfl)
+  exact this
+
+theorem weightsAt_permModel (m : Model α) (cs' : List Comp) (hnd : m.comps.Nodup) (hp : cs'.Perm m.comps)
+    (p : List (String × α)) (t : α) (v : List α) (hv : v.length = m.comps.length) :
+    weightsAt (permModel m cs') ⟨p, t, relabel m cs' v⟩ = weightsAt m ⟨p, t, v⟩ := by
+  unfold weightsAt
+  show (m.flows.map (reindexFlow (newPos m cs'))).mapM _ = _
+  rw [List.mapM_map]
+  apply mapM_option_congr
+  intro f _
+  simp only [Function.comp, realised_reindexFlow]
+  exact eval_reindex p t v _ _ (sumL_relabel m cs' hnd hp v hv)
+    (fun i => by rw [relabel_length, hv]; exact newPos_lt m cs' hp i)
+    (fun i hi => relabel_getD_newPos m cs' hnd hp v i (hv ▸ hi)) _
+
+theorem mixingMatrix_permModel (m : Model α) (cs' : List Comp) (hnd : m.comps.Nodup) (hp : cs'.Perm m.comps)
+    (p : List (String × α)) (t : α) (v : List α) (hv : v.length = m.comps.length) :
+    mixingMatrix (permModel m cs') ⟨p, t, relabel m cs' v⟩ = mixingMatrix m ⟨p, t, v⟩ := by
+  unfold mixingMatrix
+  have : (permModel m cs').mixingMats.mapM (evalMatrix ⟨p, t, relabel m cs' v⟩)
+      = m.mixingMats.mapM (evalMatrix ⟨p, t, v⟩) := by
+    show (m.mixingMats.map _).mapM _ = _
+    rw [List.mapM_map]
+    apply mapM_option_congr
+    intro mat _
+    simp only [Function.comp, evalMatrix, List.mapM_map]
+    apply mapM_option_congr
+    intro row _
+    simp only [Function.comp, List.mapM_map]
+    apply mapM_option_congr
+    intro e _
+    exact eval_reindex p t v _ _ (sumL_relabel m cs' hnd hp v hv)
+      (fun i => by rw [relabel_length, hv]; exact newPos_lt m cs' hp i)
+      (fun i hi => relabel_getD_newPos m cs' hnd hp v i (hv ▸ hi)) e
+  rw [this]
+
+/-- **reordering the compartments, general case**: positional reads follow their compartment -/
+theorem step_permModel (m : Model α) (cs' : List Comp) (b b' : Backend) (h : prepare m = .ok b)
+    (h' : prepare (permModel m cs') = .ok b') (hs : sourcedOk m = true) (hu : foiAligned b = true)
+    (hnd : m.comps.Nodup) (hp : cs'.Perm m.comps) (p : List (String × α)) (t : α) (x : List α)
+    (hx : x.length = m.comps.length) :
+    step (permModel m cs') b' p t (relabel m cs' x) = (step m b p t x).map (relabelOut m cs') := by
+  rw [prepare_permModel] at h'
+  have hcx : (cleanV x).length = m.comps.length := by simpa [cleanV] using hx
+  exact step_perm_comps_core m _ cs' b b' h h' hs hu hnd hp p t x hx
+    (weightsAt_permModel m cs' hnd hp p t _ hcx) (mixingMatrix_permModel m cs' hnd hp p t _ hcx) rfl
+
+/-- a model that reads no compartment by position through the *parameter or any adjustment* of a flow
+(a syntactic condition slightly stronger than `posFreeModel`) is literally unchanged by the redirection -/
+theorem reindexFlow_of_posFree (ρ : Nat → Nat) (f : Flow α) (hp : posFree f.param = true)
+    (ha : f.adjs.all (fun a => posFree a.expr) = true) : reindexFlow ρ f = f := by
+  unfold reindexFlow
+  rw [reindex_of_posFree ρ f.param hp]
+  have : f.adjs.map (reindexAdj ρ) = f.adjs := by
+    rw [List.all_eq_true] at ha
+    conv_rhs => rw [← List.map_id f.adjs]
+    apply List.map_congr_left
+    intro a hmem
+    have := ha a hmem
+    cases a with
+    | mul e => simp only [reindexAdj, id]; rw [reindex_of_posFree ρ e this]
+    | ovr e => simp only [reindexAdj, id]; rw [reindex_of_posFree ρ e this]
+  rw [this]
+
+
+/-- for a model none of whose flow parameters, adjustments and mixing entries reads a compartment by
+position, `permModel` IS `withComps` -/
+theorem permModel_eq_withComps (m : Model α) (cs' : List Comp)
+    (hf : ∀ f ∈ m.flows, posFree f.param = true ∧ f.adjs.all (fun a => posFree a.expr) = true)
+    (hm : ∀ mat ∈ m.mixingMats, ∀ row ∈ mat, ∀ e ∈ row, posFree e = true) :
+    permModel m cs' = withComps m cs' := by
+  have h1 : m.flows.map (reindexFlow (newPos m cs')) = m.flows := by
+    conv_rhs => rw [← List.map_id m.flows]
+    apply List.map_congr_left
+    intro f hmem
+    exact reindexFlow_of_posFree _ f (hf f hmem).1 (hf f hmem).2
+  have h2 : m.mixingMats.map (fun mat => mat.map (fun row => row.map (reindex (newPos m cs')))) = m.mixingMats := by
+    conv_rhs => rw [← List.map_id m.mixingMats]
+    apply List.map_congr_left
+    intro mat hmat
+    conv_rhs => rw [id, ← List.map_id mat]
+    apply List.map_congr_left
+    intro row hrow
+    conv_rhs => rw [id, ← List.map_id row]
+    apply List.map_congr_left
+    intro e he
+    exact reindex_of_posFree _ e (hm mat hmat row hrow e he)
+  unfold permModel withComps
+  rw [h1, h2]
+
+end stepsec
+
+/-! ## 7. `prepare` succeeds for the reordered model -/
+section prep
+variable {α : Type}
+
+/-- one strain of `_strain_category_indexers` (the body of the loop in `prepare`) -/
+def scStep (catIdx : List (List Nat)) (ncats : Nat) (inf : List Nat) : Res (List (List Nat)) := do
+  let flat := catIdx.flatten.filter (fun j => inf.contains j)
+  let loc := flat.map (fun j => (indexOf? inf j).getD 0)
+  let w := loc.length / ncats
+  guardE (ncats * w == loc.length) "reshape: infectious compartments do not divide into categories"
+  pure (reshapeRows loc ncats w)
+
+theorem strainCatOf_eq (m : Model α) :
+    strainCatOf m = (m.strains.map (strainInfectiousIdx m)).mapM (scStep (Proofs.catIdxOf m) m.mixingCats.length) := rfl
+
+theorem scStep_ok_iff (catIdx : List (List Nat)) (n : Nat) (inf : List Nat) :
+    (∃ o, scStep catIdx n inf = .ok o)
+      ↔ (n * ((locOf catIdx inf).length / n) == (locOf catIdx inf).length) = true := by
+  unfold scStep locOf
+  simp only [bind, Except.bind]
+  generalize (List.map (fun j => (indexOf? inf j).getD 0)
+      (List.filter (fun j => inf.contains j) catIdx.flatten)) = L
+  cases hc : (n * (L.length / n) == L.length) <;> simp [guardE, fail, pure, Except.pure]
+
+theorem lookOf_ok_iff (m : Model α) (f : Flow α) :
+    (∃ o, lookOf m f = .ok o) ↔ (indexOf? m.strains (strainOf f)).isSome = true := by
+  unfold lookOf strainOf
+  simp only []
+  split
+  · rename_i si heq
+    exact ⟨fun _ => congrArg Option.isSome heq, fun _ => ⟨_, rfl⟩⟩
+  · rename_i heq
+    refine ⟨fun ⟨o, ho⟩ => (by cases ho), fun hsome => ?_⟩
+    have hn : (indexOf? m.strains (strainOf f)).isSome = false := congrArg Option.isSome heq
+    unfold strainOf at hn
+    rw [hn] at hsome
+    cases hsome
+
+theorem guardE_ok_iff (c : Bool) (msg : String) : guardE c msg = .ok () ↔ c = true := by
+  cases c <;> simp [guardE, fail, pure, Except.pure]
+
+theorem rowGuard_eq (L : List (List Nat)) :
+    L.all (fun r => r.length == (L.head?.map (·.length)).getD 0)
+      = (L.map (·.length)).all (fun n => n == ((L.map (·.length)).head?).getD 0) := by
+  rw [List.all_map, List.head?_map]
+  rfl
+
+theorem catIdx_lengths_perm_comps (m : Model α) (cs' : List Comp) (hp : cs'.Perm m.comps) :
+    (Proofs.catIdxOf (withComps m cs')).map (·.length) = (Proofs.catIdxOf m).map (·.length) := by
+  rw [AggregateMore.catIdxOf_eq, AggregateMore.catIdxOf_eq, List.map_map, List.map_map]
+  apply List.map_congr_left
+  intro cat _
+  simp only [Function.comp, idxWhere_length]
+  exact (hp.filter _).length_eq
+
+/-- **`prepare` succeeds for a model iff it succeeds for the model with its compartments reordered**
+(stated in the direction used; the relation `Perm` is symmetric) -/
+theorem prepare_ok_perm_comps (m : Model α) (cs' : List Comp) (b : Backend) (h : prepare m = .ok b)
+    (hp : cs'.Perm m.comps) : ∃ b', prepare (withComps m cs') = .ok b' := by
+  have hb := backendFor_of_prepare m b h
+  have htab := tablesFor_of_prepare m b h
+  -- the individual checks of `prepare m`
+  unfold prepare at h
+  simp only [bind, Except.bind] at h
+  split at h
+  · contradiction
+  split at h
+  · contradiction
+  split at h
+  · contradiction
+  rename_i _ _ hg1
+  split at h
+  · contradiction
+  split at h
+  · contradiction
+  split at h
+  · contradiction
+  rename_i _ _ hg2
+  clear h
+  -- the same checks for the reordered model
+  have hsrc' : ∃ v, m.flows.mapM (fun f => match f.src with
+      | none => (pure (none : Option Nat) : Res (Option Nat))
+      | some c => match compIdx cs' c with
+        | some i => pure (some i)
+        | none => fail "flow source is not a compartment of the model") = .ok v := by
+    apply mapM_except_ok_of_all
+    intro f hf
+    cases hs : f.src with
+    | none => exact ⟨none, rfl⟩
+    | some c =>
+      obtain ⟨j, hj, _⟩ := compIdx_of_mem cs' c (hp.mem_iff.2 (src_mem_comps hb f hf c hs))
+      exact ⟨some j, by simp only [hj]; rfl⟩
+  have hdst' : ∃ v, m.flows.mapM (fun f => match f.dst with
+      | none => (pure (none : Option Nat) : Res (Option Nat))
+      | some c => match compIdx cs' c with
+        | some i => pure (some i)
+        | none => fail "flow dest is not a compartment of the model") = .ok v := by
+    apply mapM_except_ok_of_all
+    intro f hf
+    cases hs : f.dst with
+    | none => exact ⟨none, rfl⟩
+    | some c =>
+      obtain ⟨j, hj, _⟩ := compIdx_of_mem cs' c (hp.mem_iff.2 (dst_mem_comps hb f hf c hs))
+      exact ⟨some j, by simp only [hj]; rfl⟩
+  have hg1' : guardE ((Proofs.catIdxOf (withComps m cs')).all
+      (fun r => r.length == ((Proofs.catIdxOf (withComps m cs')).head?.map (·.length)).getD 0))
+      "np.stack: mixing categories of unequal size" = .ok () := by
+    rw [guardE_ok_iff, rowGuard_eq, catIdx_lengths_perm_comps m cs' hp, ← rowGuard_eq]
+    exact (guardE_ok_iff _ _).1 hg1
+  have hsc' : ∃ sc, strainCatOf (withComps m cs') = .ok sc := by
+    rw [strainCatOf_eq]
+    apply mapM_except_ok_of_all
+    intro inf hinf
+    obtain ⟨σ, hσ, rfl⟩ := List.mem_map.1 hinf
+    have h0 := mapM_except_all_ok _ _ _ htab.strainCatIdx (strainInfectiousIdx m σ)
+      (List.mem_map.2 ⟨σ, hσ, rfl⟩)
+    have h1 := (scStep_ok_iff (Proofs.catIdxOf m) m.mixingCats.length (strainInfectiousIdx m σ)).1 h0
+    apply (scStep_ok_iff _ _ _).2
+    rw [length_locOf, rowLens_perm_comps m cs' hp, ← length_locOf]
+    exact h1
+  have hlk' : ∃ lk, (m.flows.filter (fun f => Generated.infectionKinds.contains f.kind)).mapM
+      (lookOf (withComps m cs')) = .ok lk := by
+    obtain ⟨lk, hlk, _⟩ := htab.lookups
+    apply mapM_except_ok_of_all
+    intro f hf
+    simp only [infectionKinds_contains] at hf
+    obtain ⟨o, ho⟩ := mapM_except_all_ok _ _ _ hlk f hf
+    exact (lookOf_ok_iff (withComps m cs') f).2 ((lookOf_ok_iff m f).1 ⟨o, ho⟩)
+  obtain ⟨srcV', hsrc'⟩ := hsrc'
+  obtain ⟨dstV', hdst'⟩ := hdst'
+  obtain ⟨sc', hsc'⟩ := hsc'
+  obtain ⟨lk', hlk'⟩ := hlk'
+  unfold prepare
+  simp only [bind, Except.bind]
+  split
+  · rename_i e heq
+    exact absurd (hsrc'.symm.trans heq) (by simp)
+  split
+  · rename_i e heq
+    exact absurd (hdst'.symm.trans heq) (by simp)
+  split
+  · rename_i e heq
+    exact absurd (hg1'.symm.trans heq) (by simp)
+  split
+  · rename_i e heq
+    exact absurd (hsc'.symm.trans heq) (by simp)
+  split
+  · rename_i e heq
+    exact absurd (hlk'.symm.trans heq) (by simp)
+  split
+  · rename_i e heq
+    exact absurd (hg2.symm.trans heq) (by simp)
+  exact ⟨_, rfl⟩
+
+end prep
+
+/-! ## 8. solvers under a linear relabelling -/
+section solver
+variable {α : Type} [Field α]
+open Summer.Proofs.Solvers
+
+theorem scanl_map_state_inv {S τ : Type} (g g' : S → τ → S) (φ : S → S) (Inv : S → Prop)
+    (hInv : ∀ s t, Inv s → Inv (g s t)) (h : ∀ s t, Inv s → g' (φ s) t = φ (g s t))
+    (s : S) (hs : Inv s) (l : List τ) : List.scanl g' (φ s) l = (List.scanl g s l).map φ := by
+  induction l generalizing s with
+  | nil => simp
+  | cons a l ih =>
+    simp only [List.scanl_cons, List.map_cons]
+    rw [h s a hs, ih (g s a) (hInv s a hs)]
+
+/-- `a + k·b` under a relabelling -/
+theorem axpy_relabel {n : Nat} {σ : List α → List α} (hσ : LinRelabel n σ) (k : α) (a b : List α)
+    (ha : a.length = n) (hb : b.length = n) :
+    σ (vadd a (vscale k b)) = vadd (σ a) (vscale k (σ b)) ∧ (vadd a (vscale k b)).length = n := by
+  refine ⟨?_, by simp [ha, hb]⟩
+  rw [hσ.add a _ ha (by simp [hb]), hσ.smul]
+
+theorem eulerStep_relabel {n : Nat} {σ : List α → List α} (hσ : LinRelabel n σ) (f f' : List α → α → List α)
+    (hf : ∀ y t, y.length = n → (f y t).length = n) (h : ∀ y t, y.length = n → f' (σ y) t = σ (f y t))
+    (hs : α) (y : List α) (hy : y.length = n) (t : α) :
+    eulerStep f' hs (σ y) t = σ (eulerStep f hs y t) ∧ (eulerStep f hs y t).length = n := by
+  unfold eulerStep
+  obtain ⟨h1, h2⟩ := axpy_relabel hσ hs y (f y t) hy (hf y t hy)
+  exact ⟨by rw [h1, h y t hy], h2⟩
+
+theorem rk4Step_relabel {n : Nat} {σ : List α → List α} (hσ : LinRelabel n σ) (f f' : List α → α → List α)
+    (hf : ∀ y t, y.length = n → (f y t).length = n) (h : ∀ y t, y.length = n → f' (σ y) t = σ (f y t))
+    (hs : α) (y : List α) (hy : y.length = n) (t : α) :
+    rk4Step f' hs (σ y) t = σ (rk4Step f hs y t) ∧ (rk4Step f hs y t).length = n := by
+  rw [rk4Step_classical, rk4Step_classical]
+  simp only []
+  have l1 := hf y t hy
+  obtain ⟨a2, b2⟩ := axpy_relabel hσ (hs / 2) y (f y t) hy l1
+  have l2 := hf _ (t + hs / 2) b2
+  obtain ⟨a3, b3⟩ := axpy_relabel hσ (hs / 2) y _ hy l2
+  have l3 := hf _ (t + hs / 2) b3
+  obtain ⟨a4, b4⟩ := axpy_relabel hσ hs y _ hy l3
+  have l4 := hf _ (t + hs) b4
+  obtain ⟨c1, d1⟩ := axpy_relabel hσ 2 (f y t) _ l1 l2
+  obtain ⟨c2, d2⟩ := axpy_relabel hσ 2 _ _ d1 l3
+  have d3 : (vadd (vadd (vadd (f y t) (vscale 2 (f (vadd y (vscale (hs / 2) (f y t))) (t + hs / 2))))
+      (vscale 2 (f (vadd y (vscale (hs / 2) (f (vadd y (vscale (hs / 2) (f y t))) (t + hs / 2)))) (t + hs / 2))))
+      (f (vadd y (vscale hs (f (vadd y (vscale (hs / 2) (f (vadd y (vscale (hs / 2) (f y t))) (t + hs / 2))))
+        (t + hs / 2)))) (t + hs))).length = n := by simp [d2, l4]
+  obtain ⟨c4, d4⟩ := axpy_relabel hσ (hs / 6) y _ hy d3
+  refine ⟨?_, d4⟩
+  rw [c4, hσ.add _ _ d2 l4, c2, c1, h y t hy, ← a2, h _ _ b2, ← a3, h _ _ b3, ← a4, h _ _ b4]
+
+/-- **Euler under a relabelling**: if `f' (σ y) t = σ (f y t)` on vectors of length `n`, the rows of the
+trajectory from `σ y0` under `f'` are the relabelled rows of the trajectory from `y0` under `f` -/
+theorem euler_relabel {n : Nat} {σ : List α → List α} (hσ : LinRelabel n σ) (f f' : List α → α → List α)
+    (hf : ∀ y t, y.length = n → (f y t).length = n) (h : ∀ y t, y.length = n → f' (σ y) t = σ (f y t))
+    (y0 : List α) (hy0 : y0.length = n) (times : List α) :
+    euler f' (σ y0) times = (euler f y0 times).map σ := by
+  rw [euler_eq_scanl, euler_eq_scanl]
+  exact scanl_map_state_inv _ _ σ (fun y => y.length = n)
+    (fun s t hs => (eulerStep_relabel hσ f f' hf h _ s hs t).2)
+    (fun s t hs => (eulerStep_relabel hσ f f' hf h _ s hs t).1) y0 hy0 _
+
+theorem rk4_relabel {n : Nat} {σ : List α → List α} (hσ : LinRelabel n σ) (f f' : List α → α → List α)
+    (hf : ∀ y t, y.length = n → (f y t).length = n) (h : ∀ y t, y.length = n → f' (σ y) t = σ (f y t))
+    (y0 : List α) (hy0 : y0.length = n) (times : List α) :
+    rk4 f' (σ y0) times = (rk4 f y0 times).map σ := by
+  rw [rk4_eq_scanl, rk4_eq_scanl]
+  exact scanl_map_state_inv _ _ σ (fun y => y.length = n)
+    (fun s t hs => (rk4Step_relabel hσ f f' hf h _ s hs t).2)
+    (fun s t hs => (rk4Step_relabel hσ f f' hf h _ s hs t).1) y0 hy0 _
+
+/-- the compartment relabelling is a linear relabelling of the vectors with one entry per compartment -/
+theorem linRelabel_relabel (m : Model α) (cs' : List Comp) (hl : cs'.length = m.comps.length) :
+    LinRelabel m.comps.length (relabel m cs') := by
+  refine ⟨fun a _ => by rw [relabel_length, hl], fun a b ha hb => ?_, fun k a => ?_⟩
+  · apply List.ext_getElem
+    · simp [relabel_length]
+    · intro j h1 h2
+      simp only [relabel, getElem_vadd, List.getElem_map]
+      exact getD_vadd a b (by rw [ha, hb]) _
+  · apply List.ext_getElem
+    · simp [relabel_length]
+    · intro j h1 h2
+      simp only [relabel, getElem_vscale, List.getElem_map]
+      exact getD_vscale k a _
+
+end solver
+
+/-! ## 10. Dormand–Prince under a linear relabelling -/
+section ode
+variable {α : Type} [Field α]
+open Summer.Proofs.Solvers
+variable {n : Nat} {σ : List α → List α}
+
+theorem relabel_zero (hσ : LinRelabel n σ) : σ (List.replicate n 0) = List.replicate n 0 := by
+  have h := hσ.smul 0 (List.replicate n (0 : α))
+  rw [vscale_zero_eq, vscale_zero_eq, List.length_replicate, hσ.len _ (by simp)] at h
+  exact h
+
+theorem lincomb_foldl_relabel (hσ : LinRelabel n σ) (zs : List (α × List α)) (acc : List α)
+    (hacc : acc.length = n) (hk : ∀ z ∈ zs, z.2.length = n) :
+    σ (zs.foldl (fun acc ck => vadd acc (vscale ck.1 ck.2)) acc)
+      = (zs.map (fun z => (z.1, σ z.2))).foldl (fun acc ck => vadd acc (vscale ck.1 ck.2)) (σ acc) := by
+  induction zs generalizing acc with
+  | nil => rfl
+  | cons z zs ih =>
+    simp only [List.foldl_cons, List.map_cons]
+    obtain ⟨h1, h2⟩ := axpy_relabel hσ z.1 acc z.2 hacc (hk z (by simp))
+    rw [ih _ h2 (fun z' hz' => hk z' (by simp [hz'])), h1]
+
+theorem lincomb_relabel (hσ : LinRelabel n σ) (c : List α) (ks : List (List α)) (hk : ∀ v ∈ ks, v.length = n) :
+    lincomb n c (ks.map σ) = σ (lincomb n c ks) := by
+  unfold lincomb
+  rw [lincomb_foldl_relabel hσ _ _ (by simp) (fun z hz => hk _ (mem_zip_snd hz)), relabel_zero hσ,
+    List.zip_map_right]
+  rfl
+
+theorem rkStages_relabel (hσ : LinRelabel n σ) (tb : Tableau α) (f f' : List α → α → List α)
+    (hf : ∀ y t, y.length = n → (f y t).length = n) (h : ∀ y t, y.length = n → f' (σ y) t = σ (f y t))
+    (y0 f0 : List α) (hy0 : y0.length = n) (hf0 : f0.length = n) (t0 dt : α) :
+    rkStages tb f' (σ y0) (σ f0) t0 dt = (rkStages tb f y0 f0 t0 dt).map σ := by
+  unfold rkStages
+  rw [hσ.len y0 hy0, hy0]
+  have key : ∀ (l : List Nat) (ks : List (List α)), (∀ v ∈ ks, v.length = n) →
+      l.foldl (fun (ks : List (List α)) i =>
+        ks ++ [f' (vadd (σ y0) (vscale dt (lincomb n (tb.beta.getD i []) ks)))
+          (t0 + dt * tb.alpha.getD i 0)]) (ks.map σ)
+      = (l.foldl (fun (ks : List (List α)) i =>
+        ks ++ [f (vadd y0 (vscale dt (lincomb n (tb.beta.getD i []) ks)))
+          (t0 + dt * tb.alpha.getD i 0)]) ks).map σ := by
+    intro l
+    induction l with
+    | nil => intro ks _; rfl
+    | cons i l ih =>
+      intro ks hks
+      simp only [List.foldl_cons]
+      have hL := length_lincomb n (tb.beta.getD i []) ks hks
+      obtain ⟨e1, e2⟩ := axpy_relabel hσ dt y0 _ hy0 hL
+      rw [lincomb_relabel hσ _ ks hks, ← e1, h _ _ e2, ← ih]
+      · simp
+      · intro v hv
+        rcases List.mem_append.1 hv with hv | hv
+        · exact hks v hv
+        · rw [List.mem_singleton] at hv
+          rw [hv]; exact hf _ _ e2
+  have := key (List.range 6) [f0] (by simpa using hf0)
+  simpa using this
+
+theorem rkStep_relabel (hσ : LinRelabel n σ) (tb : Tableau α) (f f' : List α → α → List α)
+    (hf : ∀ y t, y.length = n → (f y t).length = n) (h : ∀ y t, y.length = n → f' (σ y) t = σ (f y t))
+    (y0 f0 : List α) (hy0 : y0.length = n) (hf0 : f0.length = n) (t0 dt : α) :
+    rkStep tb f' (σ y0) (σ f0) t0 dt
+      = (σ (rkStep tb f y0 f0 t0 dt).1, σ (rkStep tb f y0 f0 t0 dt).2.1,
+         σ (rkStep tb f y0 f0 t0 dt).2.2.1, (rkStep tb f y0 f0 t0 dt).2.2.2.map σ) := by
+  obtain ⟨_, _, _, hst, hlen, _, _⟩ := rkStep_shape tb n hf y0 f0 hy0 hf0 t0 dt
+  rw [rkStep_eq] at hst hlen
+  simp only at hst hlen
+  rw [rkStep_eq, rkStep_eq, rkStages_relabel hσ tb f f' hf h y0 f0 hy0 hf0, hσ.len y0 hy0, hy0,
+    lincomb_relabel hσ _ _ hst, lincomb_relabel hσ _ _ hst]
+  have h6 : ((rkStages tb f y0 f0 t0 dt).map σ).getD 6 [] = σ ((rkStages tb f y0 f0 t0 dt).getD 6 []) := by
+    have : 6 < (rkStages tb f y0 f0 t0 dt).length := by omega
+    simp [List.getD_eq_getElem?_getD, this]
+  have hl1 := length_lincomb n tb.cSol _ hst
+  rw [h6, ← hσ.smul, ← hσ.smul, ← hσ.add _ _ (by simp [hl1]) hy0]
+
+theorem interpFit_relabel (hσ : LinRelabel n σ) (tb : Tableau α) (y0 y1 : List α) (ks : List (List α)) (dt : α)
+    (hy0 : y0.length = n) (hy1 : y1.length = n) (hks : ∀ v ∈ ks, v.length = n) (h7 : ks.length = 7) :
+    interpFit tb (σ y0) (σ y1) (ks.map σ) dt = (interpFit tb y0 y1 ks dt).map σ := by
+  unfold interpFit
+  have g0 : (ks.map σ).getD 0 [] = σ (ks.getD 0 []) := by
+    have : 0 < ks.length := by omega
+    simp [List.getD_eq_getElem?_getD, this]
+  have g6 : (ks.map σ).getD 6 [] = σ (ks.getD 6 []) := by
+    have : 6 < ks.length := by omega
+    simp [List.getD_eq_getElem?_getD, this]
+  have l0 : (ks.getD 0 []).length = n := by
+    have : 0 < ks.length := by omega
+    rw [List.getD_eq_getElem?_getD, List.getElem?_eq_getElem this]
+    exact hks _ (List.getElem_mem _)
+  have l6 : (ks.getD 6 []).length = n := by
+    have : 6 < ks.length := by omega
+    rw [List.getD_eq_getElem?_getD, List.getElem?_eq_getElem this]
+    exact hks _ (List.getElem_mem _)
+  have hm := length_lincomb n tb.cMid ks hks
+  obtain ⟨_, e2⟩ := axpy_relabel hσ dt y0 _ hy0 hm
+  have e1 : σ (vadd y0 (vscale dt (lincomb n tb.cMid ks))) = vadd (σ y0) (σ (vscale dt (lincomb n tb.cMid ks))) :=
+    hσ.add _ _ hy0 (by simp [hm])
+  simp only [hσ.len y0 hy0, hy0, g0, g6, lincomb_relabel hσ _ ks hks, ← hσ.smul, ← e1, List.map_map]
+  apply List.map_congr_left
+  intro row _
+  simp only [Function.comp]
+  have := lincomb_relabel hσ row [vscale dt (ks.getD 0 []), vscale dt (ks.getD 6 []), y0, y1,
+      vadd y0 (vscale dt (lincomb n tb.cMid ks))] (by
+    intro v hv
+    simp only [List.mem_cons, List.not_mem_nil, or_false] at hv
+    rcases hv with rfl | rfl | rfl | rfl | rfl
+    · rw [length_vscale]; exact l0
+    · rw [length_vscale]; exact l6
+    · exact hy0
+    · exact hy1
+    · exact e2)
+  exact this
+
+theorem polyval_relabel (hσ : LinRelabel n σ) (c : List α) (cs : List (List α)) (x : α)
+    (hc : c.length = n) (hcs : ∀ v ∈ cs, v.length = n) :
+    polyval ((c :: cs).map σ) x = σ (polyval (c :: cs) x) := by
+  simp only [List.map_cons, polyval, List.foldl_map]
+  induction cs generalizing c with
+  | nil => rfl
+  | cons c' cs ih =>
+    simp only [List.foldl_cons]
+    have hc' := hcs c' (by simp)
+    rw [← hσ.smul, ← hσ.add _ _ (by simp [hc]) hc']
+    exact ih _ (by simp [hc, hc']) (fun v hv => hcs v (by simp [hv]))
+
+/-- every vector of the stepping state has length `n`, and there is a dense-output polynomial -/
+def OdeLen (n : Nat) (s : OdeState α) : Prop :=
+  s.y.length = n ∧ s.f.length = n ∧ (∀ v ∈ s.coeff, v.length = n) ∧ s.coeff ≠ []
+
+theorem stepState_relabel (hσ : LinRelabel n σ) (tb : Tableau α) (hfit : tb.fitRows ≠ []) (ctl : Control α)
+    (f f' : List α → α → List α)
+    (hf : ∀ y t, y.length = n → (f y t).length = n) (h : ∀ y t, y.length = n → f' (σ y) t = σ (f y t))
+    (hctl : RelabelInvariantCtl ctl n σ) (s : OdeState α) (hs : OdeLen n s) :
+    stepState tb ctl f' (relabelState σ s) = relabelState σ (stepState tb ctl f s) ∧
+      OdeLen n (stepState tb ctl f s) := by
+  obtain ⟨hy, hff, hco, hne⟩ := hs
+  obtain ⟨r1, r2, r3, r4, r5, _, _⟩ := rkStep_shape tb n hf s.y s.f hy hff s.t s.dt
+  unfold stepState
+  simp only [relabelState, rkStep_relabel hσ tb f f' hf h s.y s.f hy hff, hctl _ _ _ r3 hy r1,
+    interpFit_relabel hσ tb s.y _ _ s.dt hy r1 r4 r5]
+  by_cases hacc : ctl.accept (ctl.errorRatio (rkStep tb f s.y s.f s.t s.dt).2.2.1 s.y
+      (rkStep tb f s.y s.f s.t s.dt).1) = true
+  · simp only [hacc, if_true, true_and]
+    refine ⟨r1, r2, ?_, ?_⟩
+    · intro v hv
+      unfold interpFit at hv
+      rw [hy] at hv
+      obtain ⟨row, _, rfl⟩ := List.mem_map.1 hv
+      apply length_lincomb
+      intro w hw
+      have l0 : ((rkStep tb f s.y s.f s.t s.dt).2.2.2.getD 0 []).length = n := by
+        have : 0 < (rkStep tb f s.y s.f s.t s.dt).2.2.2.length := by omega
+        rw [List.getD_eq_getElem?_getD, List.getElem?_eq_getElem this]
+        exact r4 _ (List.getElem_mem _)
+      have l6 : ((rkStep tb f s.y s.f s.t s.dt).2.2.2.getD 6 []).length = n := by
+        have : 6 < (rkStep tb f s.y s.f s.t s.dt).2.2.2.length := by omega
+        rw [List.getD_eq_getElem?_getD, List.getElem?_eq_getElem this]
+        exact r4 _ (List.getElem_mem _)
+      have lm := length_lincomb n tb.cMid _ r4
+      simp only [List.mem_cons, List.not_mem_nil, or_false] at hw
+      rcases hw with rfl | rfl | rfl | rfl | rfl
+      · rw [length_vscale]; exact l0
+      · rw [length_vscale]; exact l6
+      · exact hy
+      · exact r1
+      · rw [length_vadd, length_vscale, hy, lm]; exact Nat.min_self n
+    · unfold interpFit
+      simpa using hfit
+  · simp only [hacc, Bool.false_eq_true, if_false, true_and]
+    exact ⟨hy, hff, hco, hne⟩
+
+theorem advance_relabel (hσ : LinRelabel n σ) (tb : Tableau α) (hfit : tb.fitRows ≠ []) (ctl : Control α)
+    (f f' : List α → α → List α)
+    (hf : ∀ y t, y.length = n → (f y t).length = n) (h : ∀ y t, y.length = n → f' (σ y) t = σ (f y t))
+    (hctl : RelabelInvariantCtl ctl n σ) (target : α) :
+    ∀ (fuel : Nat) (s : OdeState α), OdeLen n s →
+      advance tb ctl f' target fuel (relabelState σ s) = relabelState σ (advance tb ctl f target fuel s) ∧
+        OdeLen n (advance tb ctl f target fuel s)
+  | 0, _, hs => ⟨rfl, hs⟩
+  | fuel + 1, s, hs => by
+      obtain ⟨e1, e2⟩ := stepState_relabel hσ tb hfit ctl f f' hf h hctl s hs
+      rw [advance_succ, advance_succ, e1]
+      have hc : contCond ctl target (relabelState σ s) = contCond ctl target s := rfl
+      rw [hc]
+      split
+      · exact advance_relabel hσ tb hfit ctl f f' hf h hctl target fuel _ e2
+      · exact ⟨rfl, hs⟩
+
+theorem odeRow_relabel (hσ : LinRelabel n σ) (s : OdeState α) (hs : OdeLen n s) (target : α) :
+    odeRow (relabelState σ s) target = σ (odeRow s target) := by
+  obtain ⟨_, _, hco, hne⟩ := hs
+  unfold odeRow
+  simp only [relabelState]
+  cases hcs : s.coeff with
+  | nil => exact absurd hcs hne
+  | cons c cs =>
+    rw [hcs] at hco
+    exact polyval_relabel hσ c cs _ (hco c (by simp)) (fun v hv => hco v (by simp [hv]))
+
+theorem scanOut_relabel (hσ : LinRelabel n σ) (tb : Tableau α) (hfit : tb.fitRows ≠ []) (ctl : Control α)
+    (f f' : List α → α → List α)
+    (hf : ∀ y t, y.length = n → (f y t).length = n) (h : ∀ y t, y.length = n → f' (σ y) t = σ (f y t))
+    (hctl : RelabelInvariantCtl ctl n σ) (fuel : Nat) :
+    ∀ (l : List α) (s : OdeState α), OdeLen n s →
+      scanOut (fun s target => advance tb ctl f' target fuel s) odeRow (relabelState σ s) l
+        = (scanOut (fun s target => advance tb ctl f target fuel s) odeRow s l).map σ
+  | [], _, _ => rfl
+  | T :: l, s, hs => by
+      obtain ⟨e1, e2⟩ := advance_relabel hσ tb hfit ctl f f' hf h hctl T fuel s hs
+      simp only [scanOut, List.map_cons, e1, odeRow_relabel hσ _ e2,
+        scanOut_relabel hσ tb hfit ctl f f' hf h hctl fuel l _ e2]
+
+/-- **Dormand–Prince under a relabelling**: for a step controller whose error ratio is invariant under
+`σ`, the dense-output rows from `σ y0` under `f'` are the relabelled rows from `y0` under `f` -/
+theorem odeint_relabel (hσ : LinRelabel n σ) (tb : Tableau α) (hfit : tb.fitRows ≠ []) (ctl : Control α)
+    (f f' : List α → α → List α)
+    (hf : ∀ y t, y.length = n → (f y t).length = n) (h : ∀ y t, y.length = n → f' (σ y) t = σ (f y t))
+    (hctl : RelabelInvariantCtl ctl n σ) (fuel : Nat) (dt0 : α) (y0 : List α) (hy0 : y0.length = n)
+    (ts : List α) :
+    odeint tb ctl f' fuel dt0 (σ y0) ts = (odeint tb ctl f fuel dt0 y0 ts).map σ := by
+  rw [odeint_eq', odeint_eq']
+  have h0 : odeInit f' dt0 (σ y0) (ts.getD 0 0) = relabelState σ (odeInit f dt0 y0 (ts.getD 0 0)) := by
+    simp only [odeInit, relabelState, h y0 _ hy0, List.map_replicate]
+  have hlen : OdeLen n (odeInit f dt0 y0 (ts.getD 0 0)) := by
+    refine ⟨hy0, hf _ _ hy0, ?_, by simp [odeInit]⟩
+    intro v hv
+    simp only [odeInit, List.mem_replicate] at hv
+    rw [hv.2]; exact hy0
+  rw [h0, scanOut_relabel hσ tb hfit ctl f f' hf h hctl fuel _ _ hlen]
+  rfl
+
+end ode
+
+/-! ## 9. the vector field and the trajectories -/
+section traj
+variable {α : Type} [Field α] [LinearOrder α] [IsStrictOrderedRing α]
+open Summer.Proofs.Solvers
+
+theorem field_length {m : Model α} {b : Backend} (hb : BackendFor m b) (p : List (String × α))
+    (x : List α) (t : α) : (field m b p x t).length = m.comps.length := by
+  unfold field
+  rw [rhs_eq]
+  cases weightsAt m ⟨p, t, cleanV x⟩ with
+  | none => simp
+  | some w =>
+    cases mixingMatrix m ⟨p, t, cleanV x⟩ with
+    | none => simp
+    | some mix =>
+      cases compInfectiousness m p with
+      | none => simp
+      | some ci => simp [ratesOf, compRates_length hb]
+
+theorem relabel_replicate_zero (m : Model α) (cs' : List Comp) (n : Nat) :
+    relabel m cs' (List.replicate n (0 : α)) = List.replicate cs'.length 0 := by
+  unfold relabel
+  rw [List.eq_replicate_iff]
+  refine ⟨by simp, ?_⟩
+  intro v hv
+  obtain ⟨c, _, rfl⟩ := List.mem_map.1 hv
+  exact getD_replicate_zero n _
+
+/-- the vector field of a model `m'` with compartment list of the same length whose `rhs` is the
+relabelled `rhs` of `m` -/
+theorem field_of_rhs {m m' : Model α} {cs' : List Comp} {b b' : Backend} {p : List (String × α)}
+    (hl : m'.comps.length = cs'.length) (y : List α) (t : α)
+    (hrhs : rhs m' b' p (relabel m cs' y) t = (rhs m b p y t).map (relabel m cs')) :
+    field m' b' p (relabel m cs' y) t = relabel m cs' (field m b p y t) := by
+  unfold field
+  rw [hrhs]
+  cases rhs m b p y t with
+  | none => simp only [Option.map_none, Option.getD_none, relabel_replicate_zero, hl]
+  | some r => rfl
+
+end traj
 
 end Summer.Proofs.InvPermComps
